@@ -3042,8 +3042,14 @@ def groupby_scan(
         array = np.asarray(array)
 
     if isinstance(func, str):
-        agg = AGGREGATIONS[func]
-    assert isinstance(agg, Scan)
+        try:
+            agg = AGGREGATIONS[func]
+        except KeyError:
+            raise NotImplementedError(f"Scan {func!r} not implemented yet")
+    else:
+        agg = func
+    if not isinstance(agg, Scan):
+        raise NotImplementedError(f"func={func!r} is not a scan. Expected one of 'nancumsum', 'ffill', 'bfill' or a Scan.")
     agg = copy.deepcopy(agg)
 
     if (agg == AGGREGATIONS["ffill"] or agg == AGGREGATIONS["bfill"]) and array.dtype.kind != "f":
